@@ -111,6 +111,7 @@ impl SchedSpec for VmSpec {
         let mgr: Arc<VersionManager> = tm.version_manager().clone();
         let mon = Arc::new(Mutex::new(Mon { live: Vec::new(), next_id: 0, in_call: vec![false; self.threads.len()] }));
         let level = self.level;
+        let any_cache = self.threads.iter().flatten().any(|a| matches!(a, Act::TmWithR | Act::TmWithW));
         let mut threads: Vec<Box<dyn FnOnce() + Send>> = Vec::new();
         for (tid, prog) in self.threads.iter().cloned().enumerate() {
             let mgr = mgr.clone();
@@ -213,7 +214,9 @@ impl SchedSpec for VmSpec {
                         }
                         Act::TmClear => tm.clear_thread_cache(),
                     }
-                    let uses_cache = prog.iter().any(|a| matches!(a, Act::TmWithR | Act::TmWithW));
+                    // tokens parked in ANY thread's TOKEN_CACHE stay counted by the manager although no caller holds them: the
+                    // exact count comparison is made only in scenarios without the cache path (and for all of them at quiescence)
+                    let uses_cache = any_cache;
                     let m = mon.lock().unwrap();
                     let mut m = m;
                     m.in_call[tid] = false;
@@ -733,6 +736,36 @@ fn main() {
             threads: vec![vec![AcqW, DropOldest, AcqW, DropOldest], vec![AcqW, DropOldest]],
             bound_quick: 3,
             bound_thorough: 4,
+        }));
+        // third session: the cache path at the level without writer exclusion; readers only with a reclaimer in between;
+        // a reader that retires + reclaims while writers come and go; a token kept across the other thread's whole program
+        reg.add(Sched(VmSpec {
+            name: "TokenManager[MultiWriteMultiRead] with_reader/with_writer through the thread cache",
+            level: mwmr,
+            threads: vec![vec![TmWithW, TmWithR, TmClear], vec![TmWithW, TmClear, TmWithW]],
+            bound_quick: 2,
+            bound_thorough: 4,
+        }));
+        reg.add(Sched(VmSpec {
+            name: "VersionManager[MultiWriteMultiRead] R3: two readers and a reclaimer that also reads",
+            level: mwmr,
+            threads: vec![vec![AcqR, DropOldest, AcqR, DropOldest], vec![AcqR, DropOldest], vec![AcqR, Retire, DropOldest, Retire]],
+            bound_quick: 2,
+            bound_thorough: 3,
+        }));
+        reg.add(Sched(VmSpec {
+            name: "VersionManager[OneWriteMultiRead] RK: a reader keeps its token while a writer cycles twice and reclaims",
+            level: owmr,
+            threads: vec![vec![AcqR, Retire, DropOldest], vec![AcqW, DropOldest, Retire, AcqW, DropOldest, Retire]],
+            bound_quick: 2,
+            bound_thorough: 4,
+        }));
+        reg.add(Sched(VmSpec {
+            name: "TokenManager+VersionManager[OneWriteMultiRead] MIX: cached tokens on one thread, direct tokens on the other",
+            level: owmr,
+            threads: vec![vec![TmWithR, TmWithW, TmWithR], vec![AcqR, AcqW, DropOldest, DropOldest]],
+            bound_quick: 2,
+            bound_thorough: 3,
         }));
         reg.add(Seq(SeqTokens { level: owmr, dq: 4, dt: 5 }));
         reg.add(Seq(SeqTokens { level: mwmr, dq: 3, dt: 4 }));
